@@ -29,6 +29,7 @@ var c02Blocks = []string{
 	`<figure><noscript><img src="r.png" alt="%h"></noscript><img data-src="l.png" src="data:image/gif;base64,R0"><figcaption>%a</figcaption></figure>`,
 	`%a <table role="grid"><tr><td>%b</td><td>%c</td></tr><tr><td>y%b</td><td>y%c</td></tr></table> z%a`,
 	`<div style="DISPLAY: none"><p>%h</p></div><p>%a <span style="VISIBILITY:hidden">%h</span></p>`,
+	`<p>%a <span style="color:red; visibility:hidden">%h</span> <font style="margin:0;display:none" color="red">%h</font></p>`,
 }
 
 type c02Counter struct{}
@@ -41,6 +42,7 @@ var c02Visible = [][]string{
 	{"a", "b", "c"}, {"a", "b"}, {"a", "b", "c"}, {"a", "b"}, {"a", "b"},
 	{"a", "b", "c", "xa"}, {"a", "b"}, {"a", "b"}, {"a", "b", "c"}, {},
 	{"a", "b", "c"}, {"a", "b"}, {"a"}, {"a", "b", "c", "yb", "yc", "za"},
+	{"a"},
 	{"a"},
 }
 
